@@ -39,7 +39,17 @@ MANIFEST = dict(
          'same schedule; Gallina trace monitors classify differences. Real primitive: a scenario set runs the real classes over the real '
          '_multiprocessing.SemLock across forked processes and threads (notify_all wakes all untimed waiters, timed-out wait returns False '
          'and the counters reconcile, notify wakes exactly one, Event set/clear/wait, Semaphore(k) concurrency <= k, BoundedSemaphore '
-         'refuses over-release, RLock non-owner release), judged by outcome monitors only.',
+         'refuses over-release, RLock non-owner release), judged by outcome monitors only. '
+         'FORKS: where SemLock.__init__ registers the after-fork reset of a lock object (which `if` tests enclose it) is read from the '
+         'code on every run (G_semfork, fail-closed; also that Process._bootstrap runs the hooks before the target) and proved to cover every '
+         'lock created on POSIX, named or not; for ANY programs a history with forks -- a process forks a child at any scheduling point, '
+         'also while holding locks or inside wait/notify; the child inherits a copy of every lock object, reset by the hook, the kernel '
+         'semaphores stay as they are -- equals a plain schedule of the system in which the children exist from the start holding nothing '
+         '(C17_fork_is_late_start), hence RLock/Lock mutual exclusion, the semaphore bound and every Condition/Event theorem stated for '
+         'Reach hold with forks (C17_reach_with_forks); refuted without the reset on the generated programs (the condition\'s RLock gets '
+         'two holders; under a Lock the child\'s untimed wait() raises ValueError and leaves an orphan announcement). Real scenarios '
+         '`fork_held`: the forking thread holds an RLock / Lock / a Condition\'s lock while the participant processes are forked; their '
+         'non-blocking acquire must fail while the holder is inside, occupancy <= 1, waiters forked under the held lock are woken by notify_all.',
     note='Trusted: Coq kernel; translate/kernels/semprog.py (Python-ast -> SemProg); the primitive semantics of '
          '_multiprocessing.SemLock as modelled in Model/SemProg.v (sem_acq/sem_rel; cross-checked sequentially against the real '
          'primitive on every run); harness/detsched.py. One logical thread = one process. Counters assumed below SEM_VALUE_MAX '
@@ -210,7 +220,7 @@ def real_scenarios(res):
 
 
 def run(res):
-    res.proof_step('Props/C17.v', extra_targets=['Model/CondCheck.vo'], kernels_needed=['P_cond'])
+    res.proof_step('Props/C17.v', extra_targets=['Model/CondCheck.vo'], kernels_needed=['P_cond', 'G_semfork'])
     n = 300 if res.tier == 'quick' else 20000
     if res.broken:
         n = max(n, 3000)      # failing-input search
@@ -230,6 +240,7 @@ def run(res):
         'a timed acquire may give up at any moment (over-approximation of the deadline); fairness/liveness of blocked acquires is not modelled',
         'an exception inside a call ends the call without clean-up in the model; the theorems show none is reachable in Condition/Event',
         'real-primitive scenarios (real SemLock, forked processes, threads) are judged by outcome monitors only; they sample real schedules, they do not enumerate them',
+        'fork: the child of os.fork() has a copy of every lock object of the forking process (count/last_tid included), its only thread is the forking thread, kernel semaphores are shared not copied; SemLock._after_fork() sets count = 0; util.register_after_fork/_run_after_forkers are multiprocessing.util\'s (trusted, like the primitive); `if sem_unlink:` is true on this platform (the real fork_held scenarios exercise it)',
     ]
 
 
